@@ -441,6 +441,8 @@ class StmtMixin:
             if is_for:
                 env["_k"] = V(INT, k)
                 env["_n"] = V(INT, n)
+                if getattr(view, "src", None) is not None:
+                    env["_seq"] = view.src  # the sequence being iterated (when it is a list cell)
             return env
 
         # 1. invariants hold on entry
